@@ -1,0 +1,49 @@
+//go:build verif
+
+package ioutil
+
+// Contracts for the deductive verifier in /verif (govc); comments only.
+
+/*@
+// Object invariant of limitedReader: n <= limit and a wrapped reader exists.
+// Every Read assumes it and re-establishes it; LimitReader establishes it.
+// calls/callarg/callres refer to the ghost log of calls made through the
+// io.Reader / io.Writer interface (argument 0 is the receiver).
+
+func LimitReader
+  requires r != nil
+  ensures wraps: typeis(limited, "*limitedReader") &&
+    as(limited, "*limitedReader").r == r &&
+    as(limited, "*limitedReader").limit == n &&
+    as(limited, "*limitedReader").n == n
+
+func (*limitedReader).Read
+  requires lr != nil && lr.r != nil && lr.n <= lr.limit
+  ensures inv: lr.n <= lr.limit && lr.limit == old(lr.limit) && lr.r == old(lr.r)
+  ensures exhausted: old(lr.n) == 0 ==>
+    n == 0 && typeis(err, "*LimitError") && as(err, "*LimitError").Limit == lr.limit &&
+    calls("io.Reader.Read") == 0 && lr.n == 0
+  ensures one_clamped_request: old(lr.n) > 0 ==>
+    calls("io.Reader.Read") == 1 && callarg("io.Reader.Read", 0) == old(lr.r) &&
+    sameBase(callarg("io.Reader.Read", 1), p) && off(callarg("io.Reader.Read", 1)) == off(p) &&
+    len(callarg("io.Reader.Read", 1)) == min(len(p), old(lr.n))
+  ensures passthrough: old(lr.n) > 0 && callres("io.Reader.Read", 0) >= 0 ==>
+    n == callres("io.Reader.Read", 0) && err == callres("io.Reader.Read", 1)
+  ensures accounting: old(lr.n) > 0 ==> 0 <= n && n <= old(lr.n) && n <= len(p) && lr.n == old(lr.n) - n
+  ensures bad_length_rejected: old(lr.n) > 0 && callres("io.Reader.Read", 0) < 0 ==> n == 0 && err != nil && lr.n == old(lr.n)
+
+func NewTruncatedWriter
+  ensures tw != nil && tw.w == w && tw.limit == limit && tw.offset == 0
+
+func (*TruncatedWriter).Write
+  requires w != nil && w.w != nil && w.offset <= w.limit
+  ensures reports_all: n == len(b)
+  ensures inv: w.offset <= w.limit && w.limit == old(w.limit) && w.w == old(w.w)
+  ensures accounting: w.offset == old(w.offset) + min(len(b), old(w.limit) - old(w.offset))
+  ensures full_forwards_nothing: old(w.offset) == old(w.limit) ==> calls("io.Writer.Write") == 0 && err == nil
+  ensures forwards_prefix: old(w.offset) < old(w.limit) ==>
+    calls("io.Writer.Write") == 1 && callarg("io.Writer.Write", 0) == old(w.w) &&
+    sameBase(callarg("io.Writer.Write", 1), b) && off(callarg("io.Writer.Write", 1)) == off(b) &&
+    len(callarg("io.Writer.Write", 1)) == min(len(b), old(w.limit) - old(w.offset)) &&
+    err == callres("io.Writer.Write", 1)
+@*/
